@@ -2,6 +2,7 @@ package rules
 
 import (
 	"fmt"
+	"go/token"
 	"go/types"
 	"strings"
 
@@ -129,6 +130,14 @@ func r07Joins(c *core.Ctx, p *load.Program, va *validAnalysis) {
 					}
 				}
 			}
+			// a root glued to a name with "+" is a root too (and reported below)
+			if bo, ok := ins.(*ssa.BinOp); ok && bo.Op == token.ADD {
+				for _, e := range concatLeaves(bo, 0) {
+					if cf, ok := isCfgLoad(e, cfgs); ok && concatHasSlash(bo) {
+						joined[typeKey(cf.named)+"."+cf.name] = true
+					}
+				}
+			}
 		})
 	}
 	var roots []cfgField
@@ -182,6 +191,33 @@ func r07Joins(c *core.Ctx, p *load.Program, va *validAnalysis) {
 				} else {
 					c.Bad("R07.1", key, p.Pos(x.Pos()), fmt.Sprintf("%s joins %v onto the root %s.%s without the name being known valid: a name with a '..' element escapes the root", fname(fn), bad, typeKey(base.named), base.name))
 				}
+			case *ssa.BinOp:
+				// root + "/" + name: only the outermost concatenation is reported
+				if x.Op != token.ADD || !concatHasSlash(x) {
+					return
+				}
+				if x.Referrers() != nil {
+					for _, r := range *x.Referrers() {
+						if pb, ok := r.(*ssa.BinOp); ok && pb.Op == token.ADD {
+							return
+						}
+					}
+				}
+				var base *cfgField
+				hasName := false
+				for _, e := range concatLeaves(x, 0) {
+					if cf, ok := isCfgLoad(e, cfgs); ok {
+						cf := cf
+						base = &cf
+					} else if _, isConst := e.(*ssa.Const); !isConst {
+						hasName = true
+					}
+				}
+				if base == nil || !hasName {
+					return // root + "/" alone is a prefix for an element-boundary test, not a joined path
+				}
+				key := fname(fn) + "|" + ord.next("concat:"+typeKey(base.named)+"."+base.name)
+				c.Bad("R07.1", key, p.Pos(x.Pos()), fmt.Sprintf("%s glues a name onto the root %s.%s with string concatenation instead of path.Join: for the root \".\" (Sub(fs, \".\"), or a Sub at a mount point) the result \"./name\" is not a valid path and every operation below the view's root fails, and a \".\" name yields \"root/.\"", fname(fn), typeKey(base.named), base.name))
 			case *ssa.Store:
 				fa, ok := x.Addr.(*ssa.FieldAddr)
 				if !ok {
@@ -196,6 +232,13 @@ func r07Joins(c *core.Ctx, p *load.Program, va *validAnalysis) {
 						continue
 					}
 					key := fname(fn) + "|" + ord.next("set:"+typeKey(cf.named)+"."+cf.name)
+					// a view derived from a view of the same type keeps the parent's root on every alternative
+					if rp := recvParam(root); rp != nil && recvNamed(rp) != nil && types.Identical(recvNamed(rp), cf.named) {
+						if alt := rootForgotten(x.Val, rp, cf, 0, map[ssa.Value]bool{}); alt != "" {
+							c.Bad("R07.1", key, p.Pos(x.Pos()), fmt.Sprintf("%s builds a %s from an existing one but on one alternative the new root (%s) does not include the receiver's %s: the nested view is rooted at the parent's parent (for os.FS: at the OS root) and everything outside the subtree becomes reachable", fname(fn), typeKey(cf.named), alt, cf.name))
+							return
+						}
+					}
 					if _, isConst := x.Val.(*ssa.Const); isConst {
 						c.OKTrivial("R07.1", key, p.Pos(x.Pos()), "constant")
 						return
@@ -465,4 +508,92 @@ func r07Routes(c *core.Ctx, p *load.Program, fns []*ssa.Function, keyPrefix stri
 			c.OK("R07.4", key, p.Pos(fn.Pos()), "returned file system does not derive from a route resolution")
 		}
 	}
+}
+
+// concatLeaves: the operands of a (nested) string concatenation.
+func concatLeaves(v ssa.Value, d int) []ssa.Value {
+	if bo, ok := v.(*ssa.BinOp); ok && bo.Op == token.ADD && d < 6 {
+		return append(concatLeaves(bo.X, d+1), concatLeaves(bo.Y, d+1)...)
+	}
+	return []ssa.Value{v}
+}
+
+// concatHasSlash: one operand of the concatenation is the constant "/" (or starts/ends with it).
+func concatHasSlash(bo *ssa.BinOp) bool {
+	for _, e := range concatLeaves(bo, 0) {
+		if s, ok := ssax.ConstString(e); ok && strings.Contains(s, "/") {
+			return true
+		}
+	}
+	return false
+}
+
+func recvNamed(rp *ssa.Parameter) *types.Named {
+	t := rp.Type()
+	if pt, ok := t.(*types.Pointer); ok {
+		t = pt.Elem()
+	}
+	n, _ := types.Unalias(t).(*types.Named)
+	return n
+}
+
+// rootForgotten: an alternative (phi edge) of v that does not depend on the receiver's root field; "" if every
+// alternative does.
+func rootForgotten(v ssa.Value, rp *ssa.Parameter, cf cfgField, d int, seen map[ssa.Value]bool) string {
+	if ph, ok := v.(*ssa.Phi); ok && d < 6 && !seen[v] {
+		seen[v] = true
+		for _, e := range ph.Edges {
+			if alt := rootForgotten(e, rp, cf, d+1, seen); alt != "" {
+				return alt
+			}
+		}
+		return ""
+	}
+	var dep func(v ssa.Value, d int) bool
+	vis := map[ssa.Value]bool{}
+	dep = func(v ssa.Value, d int) bool {
+		if v == nil || d > 10 || vis[v] {
+			return false
+		}
+		vis[v] = true
+		if b, idx, ok := ssax.FieldLoad(v); ok && b == ssa.Value(rp) {
+			if st, ok := cf.named.Underlying().(*types.Struct); ok && idx < st.NumFields() && st.Field(idx).Name() == cf.name {
+				return true
+			}
+		}
+		switch x := v.(type) {
+		case *ssa.Call:
+			for _, a := range x.Call.Args {
+				if dep(a, d+1) {
+					return true
+				}
+			}
+		case *ssa.Slice:
+			// the variadic slice of path.Join
+			for _, e := range variadicElems(x) {
+				if dep(e, d+1) {
+					return true
+				}
+			}
+		case *ssa.BinOp:
+			return dep(x.X, d+1) || dep(x.Y, d+1)
+		case *ssa.Phi:
+			for _, e := range x.Edges {
+				if dep(e, d+1) {
+					return true
+				}
+			}
+		case *ssa.Extract:
+			return dep(x.Tuple, d+1)
+		case *ssa.Convert:
+			return dep(x.X, d+1)
+		case *ssa.ChangeType:
+			return dep(x.X, d+1)
+		}
+		return false
+	}
+	if dep(v, 0) {
+		return ""
+	}
+	return vname(v)
 }
